@@ -141,7 +141,7 @@ var helperComposites = []string{"Change", "ChangeRatio", "ChangePercent"}
 func CheckC01(c *Ctx) {
 	run := c.Run
 	run.Technique = "value-term comparison: the calculus derives, for every output of all 61 indicator Compute methods, a term over the input series (delays, sub-indicator operators, arithmetic, inlined stateless closures, running folds); each term is compared as a rational-function normal form with the formula transcribed from the type's doc comment. Loop-free recurrences (EMA, RMA, SMMA, KAMA, moving sum, NVI, OBV) are compared as guarded commands on every ordering of their inputs. Plus the anchor (input position of element 0) of every operand of every join, symbolic in the periods"
-	run.Explanation = "Decides the structural part of C01: (1) formula: the composition each indicator computes - which sub-indicators with which periods applied to which inputs, delayed by how many days, combined by which arithmetic and constants - equals the documented formula as an identity of rational functions over uninterpreted operators, for every configuration (periods are symbols); this holds for every input series because both sides are the same function of the series. (2) formula/recurrence: one step of each loop-free recurrence equals the documented update on every sign pattern of its comparisons (ties included). (3) join-alignment: at every element-wise join the operands refer to the same input position unless the documented formula prescribes an offset. NOT decided: the windows kept in the search tree and rings (MovingMax/MovingMin/MovingStd/Wma loop bodies, SuperTrend's selection rule, helper.Since), which are named operators here; warm-up lengths are C02's; floating-point rounding."
+	run.Explanation = "Decides the structural part of C01: (1) formula: the composition each indicator computes - which sub-indicators with which periods applied to which inputs, delayed by how many days, combined by which arithmetic and constants - equals the documented formula as an identity of rational functions over uninterpreted operators, for every configuration (periods are symbols); this holds for every input series because both sides are the same function of the series. (2) formula/recurrence: one step of each loop-free recurrence equals the documented update on every sign pattern of its comparisons (ties included). (3) join-alignment: at every element-wise join the operands refer to the same input position unless the documented formula prescribes an offset. NOT decided: the windows kept in the search tree and rings (MovingMax/MovingMin/MovingStd/Wma loop bodies, SuperTrend's selection rule, helper.Since), which are named operators here; warm-up lengths are C02's; floating-point rounding. Further: the sub-periods constructors derive from their parameter (HMA's round(p/2), p, round(sqrt p); TRIMA's two SMA periods for p = 1..12) are the documented ones; every Default constant whose comment states its value has that value and every Default constant is used; named arguments are not swapped; and, after the equality proof, the computed and the documented expression trees are evaluated in float64 at limit points (one denominator atom at +0/-0): where the documented formula has a value the computed one has it too (no NaN from Inf/Inf where the formula has a limit)."
 	run.Trusted = []string{"go/types", "formula table rules.FormulaSpecs / recurrenceSpecs transcribed from the doc comments", "intrinsic-offset table (rules.intrinsicOffsets)", "admissibility table Γ", "declared IdlePeriod contracts of sub-indicators (each is C02's obligation)", "Fourier–Motzkin entailment", "normal forms of internal/sym (polynomial arithmetic over big rationals)"}
 	roots := IndicatorComputes(c.P)
 	run.Count("indicator_computes", len(roots))
